@@ -324,6 +324,21 @@ def check_cap(F, run, path):
     b = F.fn(path)
     st, loop = loop_of(b)
     ok = loop.get("k") == "While"
+    if loop.get("k") == "For":
+        # `for _ in a..n_max` (or a..=n_max): bounded by construction
+        itx = peel(loop["iter"])
+        hi = None
+        if itx.get("k") == "Struct" and itx.get("def", "").endswith("ops::Range"):
+            hi = {f["name"]: f["e"] for f in itx["fields"]}.get("end")
+        elif itx.get("k") == "Call" and (callee(itx) or "").endswith("RangeInclusive::<Idx>::new"):
+            hi = itx["args"][1]
+        okf = hi is not None and peel(hi).get("k") == "Local" and peel(hi)["name"] == "n_max" and not [x for x in walk(loop["body"], into_closures=False) if x.get("k") == "Continue" and False]
+        run.check(okf, "R8.3", path, "counter-loop", F.loc(b, loop), "the `for` loop of the iteration does not range up to n_max",
+                  sample="%s: for _ in a..n_max" % path.split("::")[-1])
+        tail = peel(b["body"].get("expr") or {})
+        run.check(tail.get("k") == "Call" and (callee(tail) or "").endswith("Err"), "R8.3", path, "cap-gives-err", F.loc(b),
+                  "exhausting the iteration cap does not return Err")
+        return
     c = peel(loop["c"]) if ok else {}
     ok = ok and c.get("k") == "Bin" and c["op"] in ("Lt", "Le") and peel(c["l"]).get("k") == "Local" and peel(c["r"]).get("k") == "Local" and peel(c["r"])["name"] == "n_max"
     if ok:
@@ -470,26 +485,37 @@ def check_aitken_guard(F, run):
 
 
 def check_muller_starts(F, run):
+    """R8.7 — the three start points of Muller's method are the three components of `initial`, each built from its *own* real and imaginary
+    part (decided on the values the prefix computes, so a helper or closure doing the conversion is fine)."""
+    from rules import muller
     b = F.fn("roots::polynomial::muller_polynomial")
+    st, loop = loop_of(b)
+    try:
+        pre = paths.explore(F, b, stop_at=st, interp_cls=muller.MInterp)
+    except sym.Unsupported as u:
+        run.broken("R8.7", b["path"], "prefix", F.loc(b, u.node if isinstance(u.node, dict) else None), str(u))
+        return
     n = 0
-    for c in walk(b["body"]):
-        if c.get("k") == "Call" and (callee(c) or "").endswith("new") and "Complex" in (callee(c) or "") and len(c["args"]) == 2:
-            a0, a1 = peel(c["args"][0]), peel(c["args"][1])
-            if a0.get("k") == "MCall" and a0["name"] == "real" and a1.get("k") == "MCall" and a1["name"] == "imaginary":
-                p0, p1 = place(a0["recv"]), place(a1["recv"])
-                if p0 and p0.startswith("initial."):
-                    n += 1
-                    run.check(p0 == p1, "R8.7", b["path"], "start:" + p0, F.loc(b, c),
-                              "start point built from the real part of %s and the imaginary part of %s (copy-paste deviant)" % (p0, p1),
-                              sample="Complex::new(%s.real(), %s.imaginary())" % (p0, p1))
+    for p in pre:
+        if not p.fell_through:
+            continue
+        cur = {nm: p.interp.env.get(i) for i, nm in p.interp.names.items()}
+        starts = [cur.get("poly_0"), cur.get("poly_1"), cur.get("poly_2")]
+        for k, v in enumerate(starts):
+            want = sym.S("initial.%d" % k)
+            n += 1
+            run.check(v is not None and v == want, "R8.7", b["path"], "start:initial.%d" % k, F.loc(b),
+                      "start point %d is %s, expected component %d of `initial` with its own real and imaginary part (copy-paste deviant)" % (k, v, k),
+                      sample="start point %d = initial.%d" % (k, k))
+        break
     run.floor("R8.7", b["path"], "start points", n, 3, F.loc(b))
 
 
 def run(F, run, tier):
-    fdjac.analyse(F, run, "C08", "R8.1", "roots")
+    symbolic_ok = fdjac.analyse(F, run, "C08", "R8.1", "roots", soft=True)
     from rules import lm
     try:
-        lm.check_coverage(F, run, "R8.1", "roots::jac_finite_diff", "roots-fd")
+        lm.check_coverage(F, run, "R8.1", "roots::jac_finite_diff", "roots-fd", moments=(symbolic_ok is False))
     except Missing as e:
         run.broken("R8.1", "roots::jac_finite_diff", "anchor", "src/roots", str(e))
     lps_by_fn = {}
